@@ -98,11 +98,29 @@ def direct_oracle(c: B.Case):
 def gen_cases(run: Run, n: int):
     rng = run.rng
     g = B.GenX(rng, leak_p=0.0)
-    modes = ["asis"] * 2 + ["permute"] * 4 + ["subset"] * 3 + ["extra"] * 3 + ["bad_input_kind", "bad_output_kind", "non_argument_input", "no_outputs"]
+    modes = ["asis"] * 2 + ["after_failed_build"] * 3 + ["permute"] * 4 + ["subset"] * 3 + ["extra"] * 3 + ["bad_input_kind", "bad_output_kind", "non_argument_input", "no_outputs"]
     cases = []
     while len(cases) < n:
         ins, outs = g.program()
         mode = rng.choice(modes)
+        if mode == "after_failed_build":
+            # 1st build: a used argument is forgotten -> KeyError.  2nd build (same process): another used argument `a` is not
+            # listed, while an unused fresh argument is listed under the name `a` had in the first build -> must be KeyError again.
+            dep = B.dependency_arguments(list(outs.values()))
+            named = [(k, v) for k, v in ins.items() if any(v is d for d in dep)]
+            if len(named) < 2:
+                mode = "asis"
+            else:
+                (ka, a), (kb, b) = named[0], named[1]
+                first = ({k: v for k, v in ins.items() if v is not b}, outs, False)
+                import numpy as np
+                fresh = B.argument(B.Tensor(np.int64, (2, 3)))
+                second = {k: v for k, v in ins.items() if v is not a}
+                second[ka] = fresh
+                c = B.Case(second, outs, True, {"mode": mode, "legal": True})
+                c.pre = first
+                cases.append(c)
+                continue
         i2, o2, drop = make_request(rng, ins, outs, mode)
         cases.append(B.Case(i2, o2, drop, {"mode": mode, "legal": True}))
     return cases, g.hist
